@@ -47,7 +47,7 @@ class MHLHistory:
     root_path -- path where the mhl folder resides
     """
 
-    history_file_name_regex = r"^(\d{4,})(?:_(.+))?$"
+    history_file_name_regex = r"(?s)^(\d{4,})(?:_(.+))?$"
 
     chain: Optional[MHLChain]
     hash_lists: List[MHLHashList]
